@@ -37,11 +37,36 @@ class Result:
     def undec(self, reason):
         self.undecided.append("%s[%s]: %s" % (self.rule, self.cfg, reason))
 
-    def floor(self, what, got, floor):
-        """fail closed when an instance count drops below the confirmed number."""
+    def floor(self, what, got, floor=None):
+        """fail closed when an instance count drops below the confirmed number.
+        Floors measured on the pinned tree live in tables/floors.json
+        (rule -> what -> config); the inline value is the fallback."""
         self.info[what] = got
+        t = _floors().get(self.rule, {}).get(what, {})
+        if self.cfg in t:
+            floor = t[self.cfg]
+        elif isinstance(floor, dict):
+            floor = floor.get(self.cfg)
+        if floor is None:
+            floor = 1
         if got < floor:
             self.undec("%s: found %d, expected at least %d (anchor lost or code restructured beyond what the rule recognises)" % (what, got, floor))
+
+
+_FLOORS = None
+
+
+def _floors():
+    global _FLOORS
+    if _FLOORS is None:
+        import json
+        p = os.path.join(os.path.dirname(os.path.dirname(os.path.dirname(os.path.abspath(__file__)))), "tables", "floors.json")
+        try:
+            with open(p) as f:
+                _FLOORS = json.load(f)
+        except Exception:
+            _FLOORS = {}
+    return _FLOORS
 
 
 def _rel(f):
